@@ -47,7 +47,7 @@ def level_specs(n_prev, kl):
             yield bl, s
 
 
-def build(G0, levels, leaf, drop_top=False, chain_only=False):
+def build(G0, levels, leaf, drop_top=False, chain_only=False, decoy=False):
     """levels: list of (blocks, strand) placing level i+1 on level i. Returns (leaf location, texts per level, types).
     drop_top: the same lower levels WITHOUT the top ancestor (level 1 becomes the root)."""
     texts = [G0]
@@ -61,7 +61,12 @@ def build(G0, levels, leaf, drop_top=False, chain_only=False):
             par = Parent(id="L1", sequence_type="t1", sequence=seq)
             continue
         loc_on_prev = lib.mk_loc(bl, s, par)  # location of level i+1 on level i
-        if chain_only:
+        if decoy:
+            # the level is described twice: its Sequence object remembers ANOTHER placement (same blocks, opposite strand)
+            # than the hierarchy it is put into; the explicit parent given to Parent(...) is the one that counts
+            other = lib.mk_loc(bl, M.strand_rev(s), par)
+            seq = Sequence(texts[i + 1], ALPHA, id=f"L{i+1}", type=f"t{i+1}", parent=other.parent, validate_parent=False)
+        elif chain_only:
             # the other documented way to nest: the hierarchy is carried by Parent.parent only, sequences are bare
             seq = Sequence(texts[i + 1], ALPHA, id=f"L{i+1}", type=f"t{i+1}")
         else:
@@ -211,6 +216,28 @@ def check_truncated_twin(res, N0, levels, leaf, chain_only=False):
                 o = lib.outcome(obj.lift_over_to_first_ancestor_of_type, "t1")
                 if o[0] != "ok" or M.P(lib.loc_blocks(o[1]), lib.loc_strand(o[1])) != expP1:
                     res.deviation("lift_over_to_first_ancestor_of_type", dict(which=nm, **c), lib.canon_loc(o[1]) if o[0] == "ok" else o[1], expP1, sig="twin-t1-lift")
+
+
+def check_decoy(res, N0, levels, leaf):
+    """explicit parent placement wins over the placement remembered by the level's Sequence object"""
+    G0 = LETTERS[:N0]
+    case = dict(kind="decoy", N0=N0, levels=[[list(map(list, bl)), s] for bl, s in levels], leaf=[list(map(list, leaf[0])), leaf[1]])
+    o = lib.outcome(build, G0, levels, leaf, False, False, True)
+    res.trans()
+    if o[0] != "ok":
+        if not lib.is_documented_exc(o[2]):
+            res.deviation("build", dict(op="decoy-build", **case), o[1], "hierarchy or documented refusal", sig="decoy-build")
+        return
+    L, _ = o[1]
+    res.state(("decoy", tuple(levels), leaf))
+    res.nontriv(("decoy", tuple(levels), leaf))
+    for upto in range(len(levels) - 1, -1, -1):
+        expP, expS = compose(levels, leaf, upto)
+        o = lib.outcome(L.lift_over_to_first_ancestor_of_type, f"t{upto}")
+        res.trans()
+        c = dict(op="lift-decoy", upto=upto, **case)
+        if o[0] != "ok" or M.P(lib.loc_blocks(o[1]), lib.loc_strand(o[1])) != expP or lib.loc_strand(o[1]) != expS:
+            res.deviation("lift-decoy", c, lib.canon_loc(o[1]) if o[0] == "ok" else o[1], [expP, expS], sig="decoy-lift")
 
 
 def check_overlap_leaf(res, N0, levels, leaf):
@@ -363,6 +390,7 @@ def run_shard(shard):
                 continue
             check_truncated_twin(res, w["N0"] - 1, list(levels), leaf)
             check_truncated_twin(res, w["N0"] - 1, list(levels), leaf, chain_only=True)
+            check_decoy(res, w["N0"] - 1, list(levels), leaf)
         # overlapping leaves below one or two levels
         idx = 0
         N0 = w["N0"]
@@ -405,13 +433,13 @@ def run_shard(shard):
 
 def replay(case):
     res = ShardResult()
-    if case["kind"] in ("hier", "twin", "ovl"):
+    if case["kind"] in ("hier", "twin", "ovl", "decoy"):
         levels = tuple((tuple(tuple(b) for b in bl), s) for bl, s in case["levels"])
         leaf = (tuple(tuple(b) for b in case["leaf"][0]), case["leaf"][1])
         if case["kind"] == "twin":
             check_truncated_twin(res, case["N0"], list(levels), leaf, case.get("chain_only", False))
         else:
-            {"hier": check_hier, "ovl": check_overlap_leaf}[case["kind"]](res, case["N0"], list(levels), leaf)
+            {"hier": check_hier, "ovl": check_overlap_leaf, "decoy": check_decoy}[case["kind"]](res, case["N0"], list(levels), leaf)
     elif case["kind"] == "chunk3":
         check_chunk3(res, case["N"], case["a"], case["b"], tuple(tuple(x) for x in case["bl1"]), case["s1"],
                      (tuple(tuple(x) for x in case["leaf"][0]), case["leaf"][1]), case["c"], case["d"])
